@@ -95,7 +95,7 @@ func run(c *lib.Ctx) error {
 		runs = []genRun{
 			{name: "full2", pool: "full", maxLen: 2, sets: seq(1, 30), builtinMod: 2},
 			{name: "small3", pool: "small", maxLen: 3, sets: seq(1, 30), exactLen: true, builtinMod: 7, perJob: 5},
-			{name: "full3", pool: "full", maxLen: 3, sets: []int{1, 15, 26}, exactLen: true, builtinMod: 11, perJob: 1},
+			{name: "full3", pool: "full", maxLen: 3, sets: []int{1, 15, 26}, builtinMod: 11, perJob: 1},
 			{name: "tiny4", pool: "tiny", maxLen: 4, sets: append(append([]int{}, l9...), 30), exactLen: true, builtinMod: 7, perJob: 5},
 			{name: "extra2", pool: "extra", maxLen: 2, sets: []int{5, 11, 28, 29, 30}, builtinMod: 1},
 		}
